@@ -3,6 +3,7 @@
 import json
 ids=[json.loads(l)['id'] for l in open('/verif/properties.jsonl')]
 claimed = {
+ "C20": ("cmd/collector compiled as an importable package by the overlay: arrival task, HTTP client tasks on the real handlers, reset task under the seeded baton scheduler (sim layer) and the race detector (race layer); pre-fill to and beyond the 4096 cap; porcupine against a bounded FIFO window; rendered-field check", "6 C20"),
  "C18": ("real exporter and real collector TLS/DTLS handshakes (crypto/tls, pion/dtls) over the simulated network in fake time: certificate zoo with fixed validity windows, bubble clock moved before / inside / after them, trust-matrix model; adversarial peers (TLS server capped at 1.1/1.2/1.3, plaintext sender, plaintext listener), re-use of one client configuration object", "6 C18"),
  "C14": ("real exporter with its refresh / connection-check goroutines in fake time: sends on and 1 ns around ticks, first template after the first tick, peer FIN, write error on a refresh datagram, concurrent repeated Close, sends after Close; tap + independent decoder + goroutine census (sim layer) and race detector (race layer)", "6 C14"),
  "C12": ("1-8 raw clients over tcp / udp / tls against the real Start()/Stop() path under the seeded baton scheduler with preemptions (sim layer) and under the race detector (race layer); stalling consumer, abrupt closes, Stop during traffic; per-connection order / exactly-once model, connection count, Stop liveness in simulated time, goroutine + socket census", "6 C12"),
